@@ -380,7 +380,7 @@ const (
 	thoroughWalkMax = 50000
 	pathChunk       = 10000
 	quickPaths      = 2500
-	walkChunk       = 20000
+	walkChunk       = 10000
 )
 
 // evalEvery: the expression of a value is evaluated on the root (an eval and
